@@ -119,7 +119,7 @@ theorem maskedLoss_bind_indep {β : Type} (ls : List Nat) (l1 l2 : Nat → K) (m
       simp only []
       split_ifs <;> rfl
 
-/-! ### ncc_loss with a mask (repaired, PENDING-F16BD) -/
+/-! ### ncc_loss with a mask (repaired, d5da1fc / 4a8506f) -/
 
 /-- the four documented/broadcastable mask shapes pass the checks of `masked_loss` against the image shape. -/
 theorem maskedLossCheck_documented (N C : Nat) (sp : List Nat) (n0 c0 : Nat)
